@@ -15,6 +15,11 @@ CONSTANTS
   MaxSends = 2
   MaxDeposits = 1
   MaxBlocks = 3
+  Orchs = {"o1", "o2"}
+  Exts = {"e1", "e2"}
+  KeyChains = {"ethereum"}
+  KeyVariants = {"good", "wrongkey"}
+  KeepHist = FALSE
   TwoLevel = FALSE
   EmitScripts = FALSE
 VIEW View
